@@ -386,10 +386,14 @@ class Model():
 
         field_names = self.get_association_field_names(association)
 
-        # Add the association to all of the included assets
+        # Add the association to all of the included assets. An asset that
+        # is present in both fields (e.g. associated with itself) must list
+        # the association only once.
         for field_name in field_names:
             for asset in getattr(association, field_name):
                 asset_assocs = list(asset.associations)
+                if any(assoc is association for assoc in asset_assocs):
+                    continue
                 asset_assocs.append(association)
                 asset.associations = asset_assocs
 
